@@ -2,6 +2,7 @@
 //! inversion of the encoder and running forms (C10), and the isolation / transparency / reset
 //! clauses read off the same step (C15, C16, C17).
 use crate::dom::*;
+use crate::check;
 use crate::nd::Nd;
 use crate::oracle as o;
 use crate::witness;
@@ -89,10 +90,10 @@ pub fn encode<N: Nd>(nd: &mut N, kind: u8, structured: bool) {
     let m = build(c, number, value, reg, kind);
     let mut ok = false;
     check_getters(&m, c, number, value, reg, kind, &mut ok);
-    assert!(ok, "C09 message reports back channel, number, value, registered flag, resolution and data type");
-    assert!(m.number().get() <= 16383 && m.value().get() <= 16383 && m.channel().get() <= 15, "C04 (N)RPN getters in range");
-    assert!(m.is_14_bit() || m.value().get() <= 127, "C09 7-bit values are at most 127");
-    assert!(!m.is_14_bit() || m.data_type() == DataType::DataEntry, "C09 14-bit implies data entry");
+    check!(ok, "C09 message reports back channel, number, value, registered flag, resolution and data type");
+    check!(m.number().get() <= 16383 && m.value().get() <= 16383 && m.channel().get() <= 15, "C04 (N)RPN getters in range");
+    check!(m.is_14_bit() || m.value().get() <= 127, "C09 7-bit values are at most 127");
+    check!(!m.is_14_bit() || m.data_type() == DataType::DataEntry, "C09 14-bit implies data entry");
     let order = if lsb_first {
         DataEntryByteOrder::LsbFirst
     } else {
@@ -102,29 +103,29 @@ pub fn encode<N: Nd>(nd: &mut N, kind: u8, structured: bool) {
     let e_msb_first = expected_slots(c, number, value, reg, kind, false);
     if structured {
         let s: [Option<StructuredShortMessage>; 4] = m.to_short_messages(order);
-        assert!(
+        check!(
             b3(&s[0]) == e[0] && b3(&s[1]) == e[1] && b3(&s[2]) == e[2] && b3(&s[3]) == e[3],
             "C09 encodes to the well-formed Control Change sequence (structured)"
         );
         let k = 0;
-        assert!(
+        check!(
             s[k].map_or(true, |x| matches!(x, StructuredShortMessage::ControlChange { .. })),
             "C09 slots are Control Change messages"
         );
         let a: [Option<StructuredShortMessage>; 4] = m.into();
-        assert!(
+        check!(
             b3(&a[0]) == e_msb_first[0] && b3(&a[1]) == e_msb_first[1] && b3(&a[2]) == e_msb_first[2] && b3(&a[3]) == e_msb_first[3],
             "C09 array conversion equals MSB-first encoding (structured)"
         );
     } else {
         let s: [Option<RawShortMessage>; 4] = m.to_short_messages(order);
-        assert!(
+        check!(
             b3(&s[0]) == e[0] && b3(&s[1]) == e[1] && b3(&s[2]) == e[2] && b3(&s[3]) == e[3],
             "C09 encodes to the well-formed Control Change sequence (raw)"
         );
-        assert!(s[3].is_some() == (kind == 1), "C09 exactly the 14-bit messages fill all four slots");
+        check!(s[3].is_some() == (kind == 1), "C09 exactly the 14-bit messages fill all four slots");
         let a: [Option<RawShortMessage>; 4] = m.into();
-        assert!(
+        check!(
             b3(&a[0]) == e_msb_first[0] && b3(&a[1]) == e_msb_first[1] && b3(&a[2]) == e_msb_first[2] && b3(&a[3]) == e_msb_first[3],
             "C09 array conversion equals MSB-first encoding (raw)"
         );
@@ -205,15 +206,15 @@ pub fn cc(c: u8, n: u8, v: u8) -> RawShortMessage {
 pub fn gen_channel(s: &mut Scanner, c: u8, a: &ChObs) {
     if let Some(m) = a.msb {
         let r = if a.reg { s.feed(&cc(c, 101, m)) } else { s.feed(&cc(c, 99, m)) };
-        assert!(r.is_none(), "C11 a number byte reports nothing");
+        check!(r.is_none(), "C11 a number byte reports nothing");
     }
     if let Some(l) = a.lsb {
         let r = if a.reg { s.feed(&cc(c, 100, l)) } else { s.feed(&cc(c, 98, l)) };
-        assert!(r.is_none(), "C11 a number byte reports nothing");
+        check!(r.is_none(), "C11 a number byte reports nothing");
     }
     if let Some(v) = a.v38 {
         let r = s.feed(&cc(c, 38, v));
-        assert!(r.is_none(), "C11 a data entry LSB reports nothing");
+        check!(r.is_none(), "C11 a data entry LSB reports nothing");
     }
 }
 
@@ -271,7 +272,7 @@ pub fn expect_msg(e: Option<(u8, u16, u16, bool, u8)>) -> Option<Pnm> {
 
 pub fn check_msg_range(m: &Option<Pnm>) {
     if let Some(m) = m {
-        assert!(
+        check!(
             m.channel().get() <= 15
                 && m.number().get() <= 16383
                 && m.value().get() <= 16383
@@ -304,15 +305,15 @@ pub fn step_cc<N: Nd>(nd: &mut N, mask: u16, ch: u8) {
     check_msg_range(&out);
     let e = spec_cc(&mut a, ch, d1, d2);
     if !o::is_pn_controller(d1) {
-        assert!(out.is_none(), "C16 C11 controller outside {6,38,96-101} reports nothing");
-        assert!(s == before, "C16 C11 controller outside {6,38,96-101} leaves the scanner in an equal state");
+        check!(out.is_none(), "C16 C11 controller outside {6,38,96-101} reports nothing");
+        check!(s == before, "C16 C11 controller outside {6,38,96-101} leaves the scanner in an equal state");
     }
     if let Some(m) = &out {
-        assert!(m.channel().get() == ch, "C15 C11 reported message carries the channel of the input");
+        check!(m.channel().get() == ch, "C15 C11 reported message carries the channel of the input");
     }
-    assert!(out.is_some() == e.is_some(), "C11 reports exactly when controller 6/96/97 arrives with a complete number");
-    assert!(same(&out, e), "C11 C10 reported message carries channel, number, registered flag, value and resolution prescribed");
-    assert!(s == gen(&a), "C11 C15 C16 post-state is the state of the advanced observer (only the addressed channel changes)");
+    check!(out.is_some() == e.is_some(), "C11 reports exactly when controller 6/96/97 arrives with a complete number");
+    check!(same(&out, e), "C11 C10 reported message carries channel, number, registered flag, value and resolution prescribed");
+    check!(s == gen(&a), "C11 C15 C16 post-state is the state of the advanced observer (only the addressed channel changes)");
     witness!(nd, out.map_or(false, |m| m.is_14_bit()), "14-bit report");
     witness!(nd, out.map_or(false, |m| !m.is_14_bit() && m.data_type() == DataType::DataEntry), "7-bit report");
     witness!(nd, out.map_or(false, |m| m.data_type() == DataType::DataDecrement), "decrement report");
@@ -327,10 +328,10 @@ pub fn step_other<N: Nd>(nd: &mut N, mask: u16) {
     let t = any_valid_triple(nd);
     nd.assume(t.0 & 0xF0 != 0xB0);
     let out = s.feed(&raw_of(t));
-    assert!(out.is_none(), "C16 C15 C11 a message that is not a Control Change reports nothing");
-    assert!(s == before, "C16 C15 C11 a message that is not a Control Change leaves the scanner in an equal state");
+    check!(out.is_none(), "C16 C15 C11 a message that is not a Control Change reports nothing");
+    check!(s == before, "C16 C15 C11 a message that is not a Control Change leaves the scanner in an equal state");
     let out2 = s.feed(&raw_of(t).to_structured());
-    assert!(out2.is_none() && s == before, "C16 C15 C11 same for the structured representation");
+    check!(out2.is_none() && s == before, "C16 C15 C11 same for the structured representation");
     witness!(nd, t.0 >= 0xF0, "system message");
     witness!(nd, t.0 < 0xB0, "channel voice message");
 }
@@ -339,19 +340,19 @@ pub fn reset_and_copy<N: Nd>(nd: &mut N, mask: u16) {
     let a = any_obs(nd, mask);
     let mut s = gen(&a);
     let copy = s;
-    assert!(gen(&EMPTY) == Scanner::new(), "C11 base case: the empty observer is the new scanner");
-    assert!(Scanner::new() == Scanner::default(), "C17 new() equals default()");
+    check!(gen(&EMPTY) == Scanner::new(), "C11 base case: the empty observer is the new scanner");
+    check!(Scanner::new() == Scanner::default(), "C17 new() equals default()");
     let c = nd.u8_le(15);
     let d1 = nd.u8_le(127);
     let d2 = nd.u8_le(127);
     let m = cc(c, d1, d2);
     let mut s2 = copy;
     let o1 = s.feed(&m);
-    assert!(s2 == copy, "C17 stepping the original leaves the copy untouched");
+    check!(s2 == copy, "C17 stepping the original leaves the copy untouched");
     let o2 = s2.feed(&m);
-    assert!(o1 == o2 && s == s2, "C17 a copy evolves identically");
+    check!(o1 == o2 && s == s2, "C17 a copy evolves identically");
     s.reset();
-    assert!(s == Scanner::new(), "C17 C11 after reset() the scanner equals a new one");
+    check!(s == Scanner::new(), "C17 C11 after reset() the scanner equals a new one");
     witness!(nd, copy != Scanner::new(), "non-initial state");
 }
 
@@ -378,12 +379,12 @@ pub fn inversion<N: Nd>(nd: &mut N, mask: u16, ch: u8, kind: u8) {
         if let Some(m) = &enc[i] {
             let out = s.feed(m);
             if i < last {
-                assert!(out.is_none(), "C10 nothing is reported before the last Control Change");
+                check!(out.is_none(), "C10 nothing is reported before the last Control Change");
             } else {
-                assert!(out == Some(msg), "C10 the last Control Change reports exactly the original message");
+                check!(out == Some(msg), "C10 the last Control Change reports exactly the original message");
             }
         } else {
-            assert!(i > last, "C09 C10 only trailing slots are empty");
+            check!(i > last, "C09 C10 only trailing slots are empty");
         }
         i += 1;
     }
@@ -402,11 +403,11 @@ pub fn running<N: Nd>(nd: &mut N, mask: u16, ch: u8, form: u8) {
     // the number selection, in either order
     let msb_first = nd.bool();
     if msb_first {
-        assert!(s.feed(&cc(ch, cm, o::hi7(number))).is_none(), "C10 number MSB reports nothing");
-        assert!(s.feed(&cc(ch, cl, o::lo7(number))).is_none(), "C10 number LSB reports nothing");
+        check!(s.feed(&cc(ch, cm, o::hi7(number))).is_none(), "C10 number MSB reports nothing");
+        check!(s.feed(&cc(ch, cl, o::lo7(number))).is_none(), "C10 number LSB reports nothing");
     } else {
-        assert!(s.feed(&cc(ch, cl, o::lo7(number))).is_none(), "C10 number LSB reports nothing");
-        assert!(s.feed(&cc(ch, cm, o::hi7(number))).is_none(), "C10 number MSB reports nothing");
+        check!(s.feed(&cc(ch, cl, o::lo7(number))).is_none(), "C10 number LSB reports nothing");
+        check!(s.feed(&cc(ch, cm, o::hi7(number))).is_none(), "C10 number MSB reports nothing");
     }
     let mut k = 0;
     while k < 3 {
@@ -415,17 +416,17 @@ pub fn running<N: Nd>(nd: &mut N, mask: u16, ch: u8, form: u8) {
         match form {
             0 => {
                 let out = s.feed(&cc(ch, 6, w));
-                assert!(out == Some(build(ch, number, w as u16, reg, 0)), "C10 running form: each data byte yields a 7-bit message");
+                check!(out == Some(build(ch, number, w as u16, reg, 0)), "C10 running form: each data byte yields a 7-bit message");
             }
             1 => {
-                assert!(s.feed(&cc(ch, 38, v)).is_none(), "C10 running form: LSB of a pair reports nothing");
+                check!(s.feed(&cc(ch, 38, v)).is_none(), "C10 running form: LSB of a pair reports nothing");
                 let out = s.feed(&cc(ch, 6, w));
-                assert!(out == Some(build(ch, number, o::join14(w, v), reg, 1)), "C10 running form: each LSB,MSB pair yields a 14-bit message");
+                check!(out == Some(build(ch, number, o::join14(w, v), reg, 1)), "C10 running form: each LSB,MSB pair yields a 14-bit message");
             }
             _ => {
                 let dec = nd.bool();
                 let out = s.feed(&cc(ch, if dec { 97 } else { 96 }, w));
-                assert!(out == Some(build(ch, number, w as u16, reg, if dec { 3 } else { 2 })), "C10 running form: each increment/decrement yields its message");
+                check!(out == Some(build(ch, number, w as u16, reg, if dec { 3 } else { 2 })), "C10 running form: each increment/decrement yields its message");
             }
         }
         k += 1;
@@ -461,7 +462,7 @@ pub fn literal<N: Nd>(nd: &mut N, c1: u8, c2: u8) {
             let c = if kind == 0 { c1 } else { c2 };
             let out = s.feed(&cc(c, d1, d2));
             let e = spec_cc(&mut a, c, d1, d2);
-            assert!(same(&out, e), "C11 C15 C17 literal history: output equals the observer's");
+            check!(same(&out, e), "C11 C15 C17 literal history: output equals the observer's");
             if out.is_some() {
                 reported += 1;
             }
@@ -496,9 +497,9 @@ pub fn interleave<N: Nd>(nd: &mut N, c1: u8, c2: u8) {
         let m = cc(c, d1, d2);
         let o_both = both.feed(&m);
         let o_own = if first { own1.feed(&m) } else { own2.feed(&m) };
-        assert!(o_both == o_own, "C15 interleaved stream reports what the channel's own scanner reports");
+        check!(o_both == o_own, "C15 interleaved stream reports what the channel's own scanner reports");
         if let Some(x) = o_both {
-            assert!(x.channel().get() == c, "C15 reported channel is the input's channel");
+            check!(x.channel().get() == c, "C15 reported channel is the input's channel");
             reported += 1;
         }
         k += 1;
@@ -512,5 +513,5 @@ pub fn twin<N: Nd>(nd: &mut N) {
     let mut s = gen(&a);
     let d2 = nd.u8_le(127);
     let out = s.feed(&cc(0, 6, d2));
-    assert!(out.map_or(true, |m| !m.is_14_bit()), "twin: deliberately false");
+    check!(out.map_or(true, |m| !m.is_14_bit()), "twin: deliberately false");
 }
